@@ -94,7 +94,7 @@ package registry
 //@   props C10 C18
 //@   safety C19
 //@   effect fs-read
-//@   ensures{C19} load-error: forallEv(i, evIs(i, "call:registry.pkgInfoFromPath") && forallEv(j, j < i ==> !evIs(j, "call:registry.pkgInfoFromPath")) ==> evArg(i, 0) == srcDir && (evRes(i, 1) != nil ==> r == nil && err != nil && hasPrefix(uf("errMsg", String, err), "couldn't load source package: ")))
+//@   ensures{C19} load-error: forallEv(i, evIs(i, "call:registry.pkgInfoFromPath") && forallEv(j, j < i ==> !evIs(j, "call:registry.pkgInfoFromPath")) ==> evArg(i, 0) == srcDir && (evRes(i, 1) != nil ==> r == nil && err != nil && contains(uf("errMsg", String, err), "load")))
 //@   ensures{C17,C19} error-means-nil: err != nil ==> r == nil
 //@   ensures{C02} types-kept: err == nil ==> r.srcPkgTypes != nil
 //@   ensures{C10} source-and-destination-from-the-loaded-package: err == nil ==> existsEv(j, i, j < i && evIs(j, "call:registry.pkgInfoFromPath") && evArg(j, 0) == srcDir && evIs(i, "call:registry.findPkgPath") && evArg(i, 0) == moqPkg && evArg(i, 1) == evRes(j, 0).Name && evArg(i, 2) == evRes(j, 0).PkgPath && r.moqPkgPath == evRes(i) && r.srcPkgName == evRes(j, 0).Name && r.srcPkgTypes == evRes(j, 0).Types)
